@@ -9,6 +9,9 @@ import (
 var _ Header = (*ASCII4BytesHeader)(nil)
 
 // ASCII4BytesHeader is 4 bytes ASCII encoded length
+// maxASCII4BytesLength is the largest length that fits into 4 decimal digits
+const maxASCII4BytesLength = 9999
+
 type ASCII4BytesHeader struct {
 	Len int
 }
@@ -26,6 +29,10 @@ func (h *ASCII4BytesHeader) Length() int {
 }
 
 func (h *ASCII4BytesHeader) WriteTo(w io.Writer) (int, error) {
+	if h.Len < 0 || h.Len > maxASCII4BytesLength {
+		return 0, fmt.Errorf("length %d can not be written as 4 ASCII digits", h.Len)
+	}
+
 	return fmt.Fprintf(w, "%04d", h.Len)
 }
 
@@ -43,6 +50,9 @@ func (h *ASCII4BytesHeader) ReadFrom(r io.Reader) (int, error) {
 	l, err := strconv.Atoi(string(buf))
 	if err != nil {
 		return 0, fmt.Errorf("converting header to int: %w", err)
+	}
+	if l < 0 {
+		return 0, fmt.Errorf("header length %d is negative", l)
 	}
 	h.Len = l
 
